@@ -14,7 +14,19 @@ CODECS_ASCII_SAFE = ["utf-8", "utf-8-sig", "utf-16", "latin-1", "cp1252"]
 _counter = [0]
 
 
-def draw_read_channel(g, ascii_only=True, allow_cr=True, encodable=None):
+USED_OBJECT_DOCS = {
+    "PLAIN": "~V\nVERS. 2.0 : earlier file\nWRAP. NO : earlier file\n~W\nSTRT.M 1 : earlier\nSTOP.M 2 : earlier\nSTEP.M 1 : earlier\n"
+             "NULL. -5 : earlier null\nEARL. x : earlier item\n~C\nED.M : earlier\nEA.U : earlier\nEB.U : earlier\n~A\n1 2 -5\n2 3 4\n",
+    "COMMA": "~V\nVERS. 2.0 : earlier file\nWRAP. NO : earlier file\nDLM . COMMA : earlier file\n~W\nNULL. -5 : earlier null\n~C\nED.M : earlier\nEA.U : earlier\n"
+             "~A\n1,2\n2,-5\n",
+    "TAB": "~V\nVERS. 2.0 : earlier file\nWRAP. NO : earlier file\nDLM . TAB : earlier file\n~W\nNULL. 7 : earlier null\n~C\nED.M : earlier\nEA.U : earlier\n"
+           "~A\n1\t2\n2\t7\n",
+    "WRAP": "~V\nVERS. 1.2 : earlier file\nWRAP. YES : earlier file\n~W\nNULL. -5 : earlier null\n~C\nED.M : earlier\nEA.U : earlier\nEB.U : earlier\n"
+            "~A\n1.0\n2.0 3.0\n2.0\n3.0 -5\n",
+}
+
+
+def draw_read_channel(g, ascii_only=True, allow_cr=True, encodable=None, used_object_p=0.0):
     """Draw a channel configuration.  Only configurations the statements claim are produced:
     BOM-less non-ASCII files always get an explicit encoding=; CR-only line ends only for files."""
     ch = g.choice(READ_CHANNELS)
@@ -37,6 +49,9 @@ def draw_read_channel(g, ascii_only=True, allow_cr=True, encodable=None):
             cfg["explicit"] = True
     else:
         cfg["newline"] = g.choice(["\n", "\n", "\r\n"])
+    if used_object_p and g.random() < used_object_p:
+        # the LASFile object doing the read has read another file (sections V, W, C, A) before
+        cfg["used_object"] = g.choice(sorted(USED_OBJECT_DOCS))
     return cfg
 
 
@@ -53,6 +68,9 @@ class _Into(object):
 
 def read_via(fs, text, cfg, kw=None, lasio_mod=None, tag="r", into=None):
     """Deliver `text` (with '\\n' line ends) to lasio.read through the configured channel."""
+    if into is None and cfg.get("used_object"):
+        into = (lasio_mod or __import__("lasio")).LASFile()
+        into.read(io.StringIO(USED_OBJECT_DOCS[cfg["used_object"]]))
     lasio = _Into(into) if into is not None else (lasio_mod or __import__("lasio"))
     kw = dict(kw or {})
     ch = cfg["channel"]
